@@ -28,7 +28,7 @@ def wavy(params):
     modes = [(np.array(m["A"], float), np.array(m["k"], float),
               float(m["phi"])) for m in params["modes"]]
 
-    def metric(T, X, Y, Z):
+    def metric(T, X, Y, Z, order=2):
         P = _P(T, X, Y, Z)
         nd = P.ndim - 1
         g = np.zeros((4, 4) + P.shape[1:])
@@ -52,7 +52,7 @@ def flat_wavy(params):
     modes = [(np.array(m["c"], float), np.array(m["k"], float),
               float(m["phi"])) for m in params["modes"]]
 
-    def metric(T, X, Y, Z):
+    def metric(T, X, Y, Z, order=2):
         P = _P(T, X, Y, Z)
         nd = P.ndim - 1
         shp = P.shape[1:]
@@ -68,6 +68,8 @@ def flat_wavy(params):
         g = np.einsum('mn,ma...,nb...->ab...', ETA, J, J)
         dg = (np.einsum('mn,cma...,nb...->cab...', ETA, dJ, J)
               + np.einsum('mn,ma...,cnb...->cab...', ETA, J, dJ))
+        if order < 2:
+            return g, dg, None
         ddg = (np.einsum('mn,cdma...,nb...->cdab...', ETA, ddJ, J)
                + np.einsum('mn,cma...,dnb...->cdab...', ETA, dJ, dJ)
                + np.einsum('mn,dma...,cnb...->cdab...', ETA, dJ, dJ)
@@ -80,12 +82,16 @@ def flat_wavy(params):
 def _kerr_schild(Hfun):
     """g = eta + 2 H l l with H, l and their derivatives from Hfun(P) ->
     H, dH[c], ddH[c,d], l[a], dl[c,a], ddl[c,d,a]."""
-    def metric(P):
+    def metric(P, order=2):
         nd = P.ndim - 1
         H, dH, ddH, l, dl, ddl = Hfun(P)
         ll = np.einsum('a...,b...->ab...', l, l)
         dll = (np.einsum('ca...,b...->cab...', dl, l)
                + np.einsum('a...,cb...->cab...', l, dl))
+        if order < 2:
+            return (_bc(ETA, nd) + 2 * H * ll,
+                    2 * (np.einsum('c...,ab...->cab...', dH, ll) + H * dll),
+                    None)
         ddll = (np.einsum('cda...,b...->cdab...', ddl, l)
                 + np.einsum('ca...,db...->cdab...', dl, dl)
                 + np.einsum('da...,cb...->cdab...', dl, dl)
@@ -128,14 +134,20 @@ def _linear_map(params):
 def _transformed(rest_metric, params):
     L, off = _linear_map(params)
 
-    def metric(T, X, Y, Z):
+    def metric(T, X, Y, Z, order=2):
         P = _P(T, X, Y, Z)
         nd = P.ndim - 1
         Pr = np.einsum('mn,n...->m...', L, P) + _bc(off, nd)
-        g, dg, ddg = rest_metric(Pr)
-        g2 = np.einsum('ma,nb,mn...->ab...', L, L, g)
-        dg2 = np.einsum('rc,ma,nb,rmn...->cab...', L, L, L, dg)
-        ddg2 = np.einsum('rc,sd,ma,nb,rsmn...->cdab...', L, L, L, L, ddg)
+        g, dg, ddg = rest_metric(Pr, order)
+        # one index at a time (a single 5-operand einsum loops naively over
+        # 4^8 index combinations per grid point)
+        def tr(T, nidx):
+            for ax in range(nidx):
+                T = np.moveaxis(np.tensordot(L, T, axes=([0], [ax])), 0, ax)
+            return T
+        g2 = tr(g, 2)
+        dg2 = tr(dg, 3)
+        ddg2 = tr(ddg, 4) if ddg is not None else None
         return g2, dg2, ddg2
     return metric
 
@@ -225,8 +237,8 @@ def pp_wave(params):
         return H, dH, ddH, l, dl, ddl
     ks = _kerr_schild(Hfun)
 
-    def metric(T, X, Y, Z):
-        return ks(_P(T, X, Y, Z))
+    def metric(T, X, Y, Z, order=2):
+        return ks(_P(T, X, Y, Z), order)
     return metric
 
 
@@ -237,7 +249,7 @@ def flrw(params):
     n, w, p = params["N"]
     a0, h0, h1, v = params["a"]
 
-    def metric(T, X, Y, Z):
+    def metric(T, X, Y, Z, order=2):
         P = _P(T, X, Y, Z)
         shp = P.shape[1:]
         t = P[0]
